@@ -12,7 +12,29 @@ import sys
 import time
 import traceback
 from collections import Counter
-from multiprocessing import Pool
+import multiprocessing
+import multiprocessing.pool
+
+
+class _NoDaemonProcess(multiprocessing.Process):
+    # workers may start processes of their own (C14 exercises System.simulate_multiple_times with worker processes)
+    @property
+    def daemon(self):
+        return False
+
+    @daemon.setter
+    def daemon(self, value):
+        pass
+
+
+class _NoDaemonContext(type(multiprocessing.get_context())):
+    Process = _NoDaemonProcess
+
+
+class Pool(multiprocessing.pool.Pool):
+    def __init__(self, *args, **kwargs):
+        kwargs['context'] = _NoDaemonContext()
+        super().__init__(*args, **kwargs)
 
 from . import common
 from .props import PROPS
